@@ -1111,6 +1111,196 @@ theorem eventSectionLive_ok {c : Cfg} (hw : c.WF) {s s2 : ESt} {later : List (Li
               · cases hp
       · cases hp
 
+/-! ## no message without a last one when every event fits a message (N5) -/
+
+/-- as long as nothing was reported, the open message has room for every event report that fits an
+empty event message -/
+def RoomInv (c : Cfg) (s : ESt) : Prop := s.empty = true → s.used + c.limit ≤ s.lim + c.hdr + c.evOpen
+
+/-- every selected event of the buffer fits an empty event message -/
+def BufFits (c : Cfg) (r : EvReq) (b : List Ev) : Prop :=
+  ∀ e ∈ b, r.passes e = true → c.hdr + c.evOpen + e.size ≤ c.limit
+
+/-- a fetch that stops for want of space has reported something before — now or earlier -/
+theorem pass_stuck_nonempty {c : Cfg} (r : EvReq) (b : List Ev) (s : ESt) (hasc : Asc b)
+    (hr : RoomInv c s) (hfit : BufFits c r b) (hf : (pass r b s).2 = false) :
+    (pass r b s).1.empty = false := by
+  cases hemp : (pass r b s).1.empty with
+  | false => rfl
+  | true =>
+    exfalso
+    obtain ⟨_, _, _, q4, _, _, q7, _, q9⟩ := pass_frame r b s
+    rw [hemp] at q9
+    have q9' := q9.symm
+    rw [Bool.and_eq_true, List.isEmpty_iff] at q9'
+    obtain ⟨hse, hlog⟩ := q9'
+    rw [hlog] at q7
+    simp only [List.map_nil, sumEv, List.sum_nil, Nat.add_zero] at q7
+    obtain ⟨_, _, _, _, p5⟩ := pass_split r b s hasc
+    obtain ⟨e, rest, he, hlt⟩ := p5 hf
+    have hmem : e ∈ pendingAt r (pass r b s).1.cursor b := by rw [he]; simp
+    obtain ⟨heb, hw⟩ := List.mem_filter.mp hmem
+    simp only [EvReq.wants, Bool.and_eq_true] at hw
+    have h1 := hfit e heb hw.2
+    have h2 := hr hse
+    rw [q4, q7] at hlt
+    omega
+
+theorem pass_empty_false (r : EvReq) (b : List Ev) (s : ESt) (h : s.empty = false) :
+    (pass r b s).1.empty = false := by
+  obtain ⟨_, _, _, _, _, _, _, _, q9⟩ := pass_frame r b s
+  rw [q9, h]; rfl
+
+theorem evLoopEnv_empty_false (c : Cfg) (r : EvReq) : ∀ (fuel : Nat) (env : Nat → List Ev) (s s2 : ESt),
+    s.empty = false → evLoopEnv c r fuel env s = .ok s2 → s2.empty = false := by
+  intro fuel
+  induction fuel with
+  | zero => intro env s s2 _ h; simp [evLoopEnv] at h
+  | succ fuel ih =>
+    intro env s s2 he h
+    rcases hp : pass r (env 0) s with ⟨s1, fin⟩
+    have h1 : (pass r (env 0) s).1 = s1 := by rw [hp]
+    have he1 : s1.empty = false := by rw [← h1]; exact pass_empty_false r _ s he
+    simp only [evLoopEnv, hp] at h
+    cases fin with
+    | true => simp only [Except.ok.injEq] at h; rw [← h]; exact he1
+    | false =>
+      simp only at h
+      split at h
+      · cases h
+      · exact ih _ (s1.flushEv c) s2 he1 h
+
+/-- **no chunk is sent while nothing was reported** when every selected event of every buffer fits an
+empty event message and the open message has the room of one -/
+theorem evLoopEnv_noflush (c : Cfg) (r : EvReq) : ∀ (fuel : Nat) (env : Nat → List Ev) (s s2 : ESt),
+    (∀ i, Asc (env i)) → (∀ i, BufFits c r (env i)) → RoomInv c s →
+    evLoopEnv c r fuel env s = .ok s2 → s2.empty = true → s2.done = s.done := by
+  intro fuel
+  induction fuel with
+  | zero => intro env s s2 _ _ _ h; simp [evLoopEnv] at h
+  | succ fuel _ =>
+    intro env s s2 hasc hfit hr h he2
+    rcases hp : pass r (env 0) s with ⟨s1, fin⟩
+    have h1 : (pass r (env 0) s).1 = s1 := by rw [hp]
+    have h2 : (pass r (env 0) s).2 = fin := by rw [hp]
+    obtain ⟨q1, _⟩ := pass_frame r (env 0) s
+    rw [h1] at q1
+    simp only [evLoopEnv, hp] at h
+    cases fin with
+    | true => simp only [Except.ok.injEq] at h; rw [← h]; exact q1
+    | false =>
+      exfalso
+      have he1 : s1.empty = false := by
+        rw [← h1]; exact pass_stuck_nonempty r _ s (hasc 0) hr (hfit 0) h2
+      simp only at h
+      split at h
+      · cases h
+      · have := evLoopEnv_empty_false c r _ _ (s1.flushEv c) s2 he1 h
+        rw [this] at he2; cases he2
+
+theorem putEvStatuses_room {c : Cfg} : ∀ (szs : List Nat) (k : Nat) (s s2 : ESt), RoomInv c s →
+    putEvStatuses c k szs s = .ok s2 → RoomInv c s2 := by
+  intro szs
+  induction szs with
+  | nil => intro k s s2 h hp; simp [putEvStatuses] at hp; subst hp; exact h
+  | cons sz szs ih =>
+    intro k s s2 _ hp
+    simp only [putEvStatuses] at hp
+    cases h1 : putEvStatus c s k sz with
+    | error e => rw [h1] at hp; cases hp
+    | ok s1 =>
+      rw [h1] at hp
+      refine ih (k + 1) s1 s2 ?_ hp
+      intro he
+      rw [putEvStatus_empty h1] at he
+      cases he
+
+/-- what `report_attributes` leaves when nothing was yielded: with the real encoding (the attribute
+array start is not longer than the event array start) the room of an empty event message -/
+theorem attrSection_room {c : Cfg} (hw : c.WF) (hle : c.arrOpen ≤ c.evOpen) {ra : Option (List AttrReq)} {s1 : ESt}
+    (h : attrSection c ra = .ok s1) :
+    s1.empty = true → s1.used + c.evOpen + c.limit ≤ s1.lim + c.evOpen + c.hdr + c.evOpen := by
+  intro he
+  cases ra with
+  | none =>
+    simp only [attrSection] at h
+    injection h with h; subst h
+    simp only; omega
+  | some as =>
+    obtain ⟨s, hp, _, _, _, _, hu, hl, _, hem⟩ := attrSection_some hw h
+    rw [hem, List.isEmpty_iff] at he
+    have hs : s = St.init c := by
+      have : selected as = [] := by simp [selected, he]
+      rw [this] at hp
+      simp only [putItems] at hp
+      injection hp with hp; exact hp.symm
+    rw [hu, hl, hs]
+    simp only [St.init]; omega
+
+/-- the event section sends no chunk while nothing was reported -/
+theorem eventSectionLive_noflush {c : Cfg} (hw : c.WF) (hle : c.arrOpen ≤ c.evOpen) {ra : Option (List AttrReq)}
+    {s s2 : ESt} {later : List (List Ev)} {re : Option EvReq} (hs : attrSection c ra = .ok s)
+    (hasc : ∀ r, re = some r → ∀ b ∈ r.buf :: later, Asc b)
+    (hfit : ∀ r, re = some r → ∀ b ∈ r.buf :: later, BufFits c r b)
+    (hp : eventSectionLive c s later re = .ok s2) : s2.empty = true → s2.done = [] := by
+  intro he2
+  obtain ⟨_, e1, _, _⟩ := attrSection_ok hw hs
+  cases re with
+  | none =>
+    simp only [eventSectionLive] at hp
+    injection hp with hp; subst hp
+    exact (e1 he2).1
+  | some r =>
+    simp only [eventSectionLive] at hp
+    cases hx : expand c s.lim c.evOpen with
+    | error e => rw [hx] at hp; cases hp
+    | ok lim =>
+      rw [hx] at hp
+      simp only at hp
+      obtain rfl := expand_ok hx
+      split at hp
+      · have r1 : RoomInv c { s with lim := s.lim + c.evOpen, used := s.used + c.evOpen, base := s.used + c.evOpen, cursor := r.maxSeen } := by
+          intro he
+          have := attrSection_room hw hle hs he
+          simp only; omega
+        have e1' : EmptyOk { s with lim := s.lim + c.evOpen, used := s.used + c.evOpen, base := s.used + c.evOpen, cursor := r.maxSeen } := e1
+        cases hst : putEvStatuses c 0 r.statuses { s with lim := s.lim + c.evOpen, used := s.used + c.evOpen, base := s.used + c.evOpen, cursor := r.maxSeen } with
+        | error e => rw [hst] at hp; cases hp
+        | ok s3 =>
+          rw [hst] at hp
+          simp only at hp
+          have r3 := putEvStatuses_room _ _ _ _ r1 hst
+          have e3 := putEvStatuses_empty _ _ _ _ e1' hst
+          rw [evLoopLive_eq_env] at hp
+          cases hlo : evLoopEnv c r (liveFuel r.buf later) (envOf r.buf later) s3 with
+          | error e => rw [hlo] at hp; cases hp
+          | ok s4 =>
+            rw [hlo] at hp
+            simp only at hp
+            cases hx2 : expand c s4.lim c.close with
+            | error e => rw [hx2] at hp; cases hp
+            | ok lim2 =>
+              rw [hx2] at hp
+              simp only at hp
+              split at hp
+              · injection hp with hp; subst hp
+                have he4 : s4.empty = true := he2
+                have hd := evLoopEnv_noflush c r _ _ s3 s4
+                  (fun i => hasc r rfl _ (envOf_mem later r.buf i))
+                  (fun i => hfit r rfl _ (envOf_mem later r.buf i)) r3 hlo he4
+                show s4.done = []
+                rw [hd]
+                -- nothing was reported before the loop either
+                have he3 : s3.empty = true := by
+                  cases h3 : s3.empty with
+                  | true => rfl
+                  | false =>
+                    have := evLoopEnv_empty_false c r _ _ s3 s4 h3 hlo
+                    rw [this] at he4; cases he4
+                exact (e3 he3).1
+              · cases hp
+      · cases hp
+
 theorem flatMap_pieces_nil (l : List ChunkOut) (h : ∀ ch ∈ l, ch.pieces = []) :
     l.flatMap (·.pieces) = [] := by
   induction l with
@@ -1207,6 +1397,49 @@ theorem respondLive_good {c : Cfg} {r : Req} {later : List (List Ev)} {cs : List
           exact (a2.doneOk ch (List.mem_reverse.mp hch)).2
         · exact ordered_of_no_events _ (fun ch hch => (hd ch (List.mem_reverse.mp hch)).2)
         · exact .inl ⟨hsup.1, hp0, he0, fun ch hch => (a2.doneOk ch (List.mem_reverse.mp hch)).1⟩
+
+/-- **only the last message ends the interaction, also over a live queue** — when the attribute array
+start is not longer than the event array start (the real encoding) and every selected event of every
+buffer a fetch may see fits an empty event message: nothing is sent at all (an empty report that is
+suppressed), or the last message and only the last has MoreChunkedMessages clear.  The message without a
+last one of `orphan_chunk` needs an event that fits no message (or another encoding). -/
+theorem respondLive_lastEnds {c : Cfg} {r : Req} {later : List (List Ev)} {cs : List ChunkOut} (hw : c.WF)
+    (hle : c.arrOpen ≤ c.evOpen)
+    (hasc : ∀ e, r.events = some e → ∀ b ∈ e.buf :: later, Asc b)
+    (hfit : ∀ e, r.events = some e → ∀ b ∈ e.buf :: later, BufFits c e b)
+    (h : respondLive c r later = .ok cs) :
+    (cs = [] ∧ r.sendIfEmpty = false) ∨
+      ∃ front last, cs = front ++ [last] ∧ last.more = false ∧ ∀ ch ∈ front, ch.more = true := by
+  rcases (respondLive_good hw hasc h).lastEnds with ⟨hs, _, _, hm⟩ | hr
+  · left
+    refine ⟨?_, hs⟩
+    unfold respondLive at h
+    cases h1 : attrSection c r.attrs with
+    | error e => rw [h1] at h; cases h
+    | ok s1 =>
+      rw [h1] at h
+      simp only at h
+      cases h2 : eventSectionLive c s1 later r.events with
+      | error e => rw [h2] at h; cases h
+      | ok s2 =>
+        rw [h2] at h
+        simp only at h
+        split at h
+        · -- the final message was sent: it has MoreChunks clear, against `∀ ch ∈ cs, ch.more = true`
+          obtain ⟨a1, e1, f1, _⟩ := attrSection_ok hw h1
+          obtain ⟨a2, _⟩ := eventSectionLive_ok hw a1 e1.toL (attrSection_ordered hw h1) hasc f1 h2
+          rw [sendDone_ok hw a2] at h
+          injection h with h
+          have := hm { pieces := s2.attrs.reverse, events := s2.evs.reverse, size := s2.used + c.trailerDone, more := false }
+            (by rw [← h]; simp)
+          cases this
+        · rename_i hsup
+          injection h with h
+          simp only [Bool.or_eq_true, Bool.not_eq_eq_eq_not, Bool.not_true, not_or, Bool.not_eq_true,
+            Bool.not_eq_false] at hsup
+          rw [← h, eventSectionLive_noflush hw hle h1 hasc hfit h2 hsup.2]
+          rfl
+  · exact .inr hr
 
 end C14
 
